@@ -348,10 +348,9 @@ class Model:
             here = self.here()
         else:
             self._need_pc()
-            if self.ph[self.seg] % n:
-                # load and execution address would be aligned differently; the manual speaks of "the
-                # program counter" only
-                raise ModelError("ALIGN n with a phase offset that is no multiple of n is excluded")
+            # under PHASE the program counter the program sees ($, labels) is the execution address: that is
+            # what ALIGN brings to a multiple of n (manual: "aligns the program counter"; changelog 1.42 Bld 133:
+            # "ALIGN uses execution instead of load address as base")
             here = self.here()
         gap = -here % n
         if fill is None:
